@@ -53,11 +53,65 @@ def gen_tm(rng, values, sep):
                                                   "^.$", "^..$"])}
 
 
+UP_HOSTS = ["up.local:8080", "10.0.0.7", "upstream.example.com", "[::1]:9000"]
+ADD_PREFIXES = ["/x", "/v2/app", "/x", "/svc-1", "/~u", "/a%2Fb", "/%7Euser", "/p q", "/a!", "/caf\u00e9", "/100%25", "x"]
+STRIP_QUERY = [["a"], ["x"], ["a", "q"], ["b c"], ["zz"]]
+
+
+def literal_prefixes(routes):
+    """leading literal segments of the path expressions of a rule: what `strip_path_prefix` is meant for"""
+    res = []
+    for rt in routes:
+        segs = rt["path"].split("/")[1:]
+        lit = []
+        for sg in segs:
+            if not sg or sg[0] in ":*\\" or "%" in sg:
+                break
+            lit.append(sg)
+            res.append("/" + "/".join(lit))
+    return res
+
+
+def gen_forward_to(rng, routes):
+    """`forward_to` of a rule: host and every shape of `rewrite` (none / scheme / strip_path_prefix / add_path_prefix /
+    both / query parameters to remove); the prefix to strip is mostly a literal prefix of one of the rule's
+    expressions (sometimes with a trailing slash, cut inside a segment, spelled with an escape, or foreign)"""
+    fw = {"host": rng.choice(UP_HOSTS)}
+    shape = rng.choice(["none", "scheme", "strip", "strip", "strip", "add", "both", "both", "query", "all"])
+    if shape == "none":
+        return fw
+    rw = {}
+    if shape in ("scheme", "all"):
+        rw["scheme"] = rng.choice(["https", "http", "ws"])
+    if shape in ("strip", "both", "all"):
+        cand = literal_prefixes(routes)
+        r = rng.random()
+        if cand and r < 0.8:
+            rw["strip"] = rng.choice(cand)
+        elif cand and r < 0.86:
+            rw["strip"] = rng.choice(cand) + "/"
+        elif cand and r < 0.92:
+            c = rng.choice(cand)
+            rw["strip"] = c[:max(1, len(c) - 1)]
+        elif cand and r < 0.96:
+            c = rng.choice(cand)
+            rw["strip"] = "/" + "%%%02X" % ord(c[1]) + c[2:]
+        else:
+            rw["strip"] = rng.choice(["/zz", "/", "/a"])
+    if shape in ("add", "both", "all"):
+        rw["add"] = rng.choice(ADD_PREFIXES)
+    if shape in ("query", "all"):
+        rw["strip_query"] = rng.choice(STRIP_QUERY)
+    fw["rewrite"] = rw
+    return fw
+
+
 VERSION = [0]   # every generated rule object is a version of its own (observable: which version answers a request)
 
 
-def gen_rule(rng, rid, exprs, rich=False):
-    """rich: also values outside ASCII (UTF-8 in the JSON case; only for harnesses reading strings as UTF-8)"""
+def gen_rule(rng, rid, exprs, rich=False, fwd=0.0):
+    """rich: also values outside ASCII (UTF-8 in the JSON case; only for harnesses reading strings as UTF-8);
+    fwd: share of rules with a backend (`forward_to`); 0 draws nothing from the generator"""
     routes = []
     for _ in range(rng.choice([1, 1, 1, 2, 2, 3])):
         e = rng.choice(exprs)
@@ -95,15 +149,18 @@ def gen_rule(rng, rid, exprs, rich=False):
             else:
                 hosts.append({"type": "regex", "value": rng.choice(HOST_REGEXES)})
     VERSION[0] += 1
-    return {"id": rid, "bt": rng.choice([True, False, None]), "esh": rng.choice(["", "", "off", "on", "no_decode"]),
+    rule = {"id": rid, "bt": rng.choice([True, False, None]), "esh": rng.choice(["", "", "off", "on", "no_decode"]),
             "scheme": rng.choice(["", "", "", "http", "https"]), "methods": methods, "hosts": hosts, "routes": routes,
             "ver": VERSION[0]}
+    if fwd and rng.random() < fwd:
+        rule["forward_to"] = gen_forward_to(rng, routes)
+    return rule
 
 
-def gen_target(rng, exprs, raw=False):
+def gen_target(rng, exprs, raw=False, extra=()):
     """raw: also octets outside what a path may contain (only for harnesses and models of the request context that
-    follow extractURL there)"""
-    values = SEG_VALUES + (RAW_OCTET_VALUES if raw else [])
+    follow extractURL there); extra: further segment values"""
+    values = SEG_VALUES + (RAW_OCTET_VALUES if raw else []) + list(extra)
     e = rng.choice(exprs)
     segs = e.split("/")
     out = []
@@ -132,7 +189,7 @@ def gen_target(rng, exprs, raw=False):
     if rng.random() < 0.5:
         p = reencode(rng, p, rng.choice([0.1, 0.3, 0.6]))
     if rng.random() < 0.15:
-        p += "?" + rng.choice(["a=b", "x=%2F", "q"])
+        p += "?" + rng.choice(["a=b", "x=%2F", "q"] + (["a=1&b=2&%61=3", "b+c=1&x", "q=%zz&a", "&&a"] if extra else []))
     return p
 
 
@@ -180,7 +237,7 @@ def rename_case(rng):
         ops += [{"op": "del", "src": "s1"}, {"op": "add", "src": "s3", "rules": [r("C", f"/{lit}/:{n3}")]}]
     for t in (f"/{lit}/7", f"/{lit}/7/details", f"/{lit}/7/x/y"):
         ops.append({"op": "find", "method": "GET", "host": "a.example.com", "target": t})
-    return {"fam": "repo", "dr": rng.random() < 0.5, "dr_bt": False, "ops": ops}
+    return {"fam": "repo", "envoy": True, "dr": rng.random() < 0.5, "dr_bt": False, "ops": ops}
 
 
 def reorder_case(rng):
@@ -205,10 +262,10 @@ def reorder_case(rng):
     finds = [{"op": "find", "method": m, "host": "a.example.com", "target": t} for m in ("GET", "POST", "DELETE")]
     ops = [{"op": "add", "src": "s1", "rules": rules}, {"op": "add", "src": "s2", "rules": [other]}] + finds + \
           [{"op": "upd", "src": "s1", "rules": perm}] + finds
-    return {"fam": "repo", "dr": rng.random() < 0.5, "dr_bt": False, "ops": ops}
+    return {"fam": "repo", "envoy": True, "dr": rng.random() < 0.5, "dr_bt": False, "ops": ops}
 
 
-def gen_repo_case(rng, max_ops=12):
+def gen_repo_case(rng, max_ops=12, fwd=0.0):
     x = rng.random()
     if x < 0.04:
         return rename_case(rng)
@@ -237,7 +294,7 @@ def gen_repo_case(rng, max_ops=12):
                 if x < 0.5:
                     rules.append(r)                      # unchanged
                 elif x < 0.75:
-                    r2 = gen_rule(rng, r["id"], pool[src], rich=True)   # changed, same id
+                    r2 = gen_rule(rng, r["id"], pool[src], rich=True, fwd=fwd)   # changed, same id
                     rules.append(r2)
                 # else removed
             if rng.random() < 0.4:
@@ -247,7 +304,7 @@ def gen_repo_case(rng, max_ops=12):
             rid = "r%d" % nid[0]
             if rules and rng.random() < 0.05:
                 rid = rules[0]["id"]     # duplicate id inside one rule set
-            rules.insert(rng.randrange(len(rules) + 1), gen_rule(rng, rid, pool[src], rich=True))
+            rules.insert(rng.randrange(len(rules) + 1), gen_rule(rng, rid, pool[src], rich=True, fwd=fwd))
         return rules
 
     def find_op():
@@ -283,4 +340,5 @@ def gen_repo_case(rng, max_ops=12):
                 ops.append(find_op())
     for _ in range(4):
         ops.append(find_op())
-    return {"fam": "repo", "dr": rng.random() < 0.5, "dr_bt": rng.random() < 0.5, "ops": ops}
+    # envoy: every lookup is also made through the request context of the Envoy ext_authz service
+    return {"fam": "repo", "envoy": True, "dr": rng.random() < 0.5, "dr_bt": rng.random() < 0.5, "ops": ops}
